@@ -78,7 +78,9 @@ fn run_view(c: &Compiled, p: &Prog, owners: &[IOStatus], xs: &[u8], tape: u64, o
     }
     let _ = p;
     let oid = c.g.get_output_node().unwrap().get_id() as usize;
-    let outv = r.vals[observer][oid].extract().and_then(|v| v.to_u8(BIT).ok());
+    // a shared output is a tuple of shares (no party receives an output value then)
+    let out_scalar = c.g.get_output_node().unwrap().get_type().map(|t| t.is_scalar()).unwrap_or(false);
+    let outv = if out_scalar { r.vals[observer][oid].extract().and_then(|v| v.to_u8(BIT).ok()) } else { None };
     (view, outv)
 }
 
@@ -128,7 +130,122 @@ pub fn enumerate_views(kind: usize, owners: &[IOStatus], outs: &[IOStatus], out:
     }
 }
 
-pub fn run(tier: &str, _seed: u64, out: &mut Out) {
+/// elementwise programs over one shape: add / sub / mul, at most one constant (same generator
+/// as c01.rs ring_program, re-implemented here: the fragment read by Model/RingEval.v)
+fn ring_program(rng: &mut Rng, st: ScalarType) -> Prog {
+    let ctx = create_context().unwrap();
+    let g = ctx.create_graph().unwrap();
+    let shape = small_shape(rng);
+    let t = array_type(shape, st);
+    let ni = 1 + rng.below(3) as usize;
+    let mut pool: Vec<Node> = (0..ni).map(|_| g.input(t.clone()).unwrap()).collect();
+    if rng.chance(1, 2) { pool.push(g.constant(t.clone(), gen_value(&t, rng)).unwrap()); }
+    if rng.chance(1, 6) { pool.push(g.zeros(t.clone()).unwrap()); }
+    let mut dep: Vec<Node> = pool[..ni].to_vec();
+    let n_ops = 1 + rng.below(5);
+    for _ in 0..n_ops {
+        let a = rng.pick(&dep).clone();
+        let b = rng.pick(&pool).clone();
+        let (a, b) = if rng.chance(1, 2) { (a, b) } else { (b, a) };
+        let n = match rng.below(4) { 0 => a.add(b), 1 => a.subtract(b), _ => a.multiply(b) }.unwrap();
+        pool.push(n.clone());
+        dep.push(n);
+    }
+    let o = pool.last().unwrap().clone();
+    g.set_output_node(o).unwrap();
+    g.finalize().unwrap();
+    ctx.set_main_graph(g.clone()).unwrap();
+    ctx.finalize().unwrap();
+    Prog { ctx, g, input_types: vec![t; ni], attempts: vec![] }
+}
+
+fn owners_no_shared(n: usize, rng: &mut Rng) -> Vec<IOStatus> {
+    (0..n).map(|_| match rng.below(5) { 0 => IOStatus::Party(0), 1 => IOStatus::Party(1), 2 => IOStatus::Party(2), 3 => IOStatus::Public, _ => IOStatus::Party(rng.below(3)) }).collect()
+}
+
+fn dump_graph(g: &Graph) {
+    for n in g.get_nodes() {
+        let deps: Vec<u64> = n.get_node_dependencies().iter().map(|d| d.get_id()).collect();
+        let an: Vec<String> = n.get_annotations().unwrap_or_default().iter().map(annot_coq).collect();
+        eprintln!("  {:3} {:<14} {:?} {}", n.get_id(), op_name(&n.get_operation()), deps, an.join(" "));
+    }
+    eprintln!("  out = {}", g.get_output_node().unwrap().get_id());
+}
+
+/// T:maskcheck — the static mask analysis (Model/MaskCheck.v, proved sound in
+/// Proofs/MaskCheckProofs.v) run inside Coq on the real compiler output, for each observer.
+fn maskcheck_cases(tier: &str, seed: u64, out: &mut Out) {
+    let mut rng = Rng::new(seed ^ 0xC03);
+    let n_prog = match tier { "thorough" => 160, "search" => 60, _ => 16 };
+    let modes = inline_modes();
+    let all_outs = output_subsets();
+    let int_sts = [UINT8, INT16, UINT32, INT32, UINT64, INT64, UINT128];
+    let dump = std::env::var("C03_DUMP").is_ok();
+    for i in 0..n_prog {
+        let st = if i % 5 == 4 { BIT } else { *rng.pick(&int_sts) };
+        let p = ring_program(&mut rng, st);
+        let owners = owners_no_shared(p.input_types.len(), &mut rng);
+        let outs = all_outs[i % 8].clone();
+        let (mname, mode) = modes[i % 3].clone();
+        let c = match compile(&p, &owners, &outs, mode) { Outcome::Ok(c) => c, _ => { out.stat("maskcheck-compile:notOk"); continue; } };
+        out.stat("maskcheck-compile:Ok");
+        out.stat(&format!("maskcheck-outputs:{}", outs.len()));
+        let ops_desc: Vec<String> = p.g.get_nodes().iter().map(|n| op_name(&n.get_operation())).collect();
+        let private = owners.iter().any(|o| *o != IOStatus::Public);
+        let nodes = nodes_coq(&c.g);
+        let cfg = cfg_coq(&owners, &outs, &c.g);
+        let oid = c.g.get_output_node().unwrap().get_id();
+        if dump { eprintln!("program {} ops {:?} owners {:?} outs {:?} inline {}", i, ops_desc, owners.iter().map(status_str).collect::<Vec<_>>(), outs.iter().map(status_str).collect::<Vec<_>>(), mname); dump_graph(&c.g); }
+        for observer in 0..3u64 {
+            let n_deliv = c.g.get_nodes().iter().filter(|n| sends_of(n).iter().any(|(s, r)| *r == observer && *s != observer)).count();
+            out.stat(&format!("maskcheck-deliveries-to-observer:{}", std::cmp::min(n_deliv, 12)));
+            let desc = json!({"ops": ops_desc, "st": scalar(st), "owners": owners.iter().map(status_str).collect::<Vec<_>>(), "outputs": outs.iter().map(status_str).collect::<Vec<_>>(), "inline": mname, "observer": observer, "compiled_nodes": c.g.get_nodes().len(), "deliveries": n_deliv});
+            out.case("T:maskcheck", format!("isSome (maskcheck {} {} {} {})", cfg, observer, nodes, oid), "true".into(), desc.clone(), private && n_deliv > 0);
+            // the view used by the theorem contains everything C02's knowledge analysis gives the observer
+            out.case("T:viewcover", format!("viewcover {} {} {}", cfg, observer, nodes), "true".into(), desc, private && n_deliv > 0);
+        }
+        // mutants of the exported graph (the property's own examples): the checker must reject
+        let gnodes = c.g.get_nodes();
+        let node_strs: Vec<String> = gnodes.iter().map(node_coq).collect();
+        let mut input_no = 0usize;
+        for n in gnodes.iter() {
+            if !matches!(n.get_operation(), Operation::Input(_)) { continue; }
+            let j = input_no;
+            input_no += 1;
+            let q = match owners.get(j) { Some(IOStatus::Party(q)) => *q, _ => continue };
+            let iid = n.get_id();
+            // share_q = Add [alpha_q, input] with alpha_q = Subtract [PRF, PRF], then NOP + Send(q, q-1)
+            let add = gnodes.iter().find(|m| matches!(m.get_operation(), Operation::Add) && m.get_node_dependencies().len() == 2 && m.get_node_dependencies()[1].get_id() == iid && matches!(m.get_node_dependencies()[0].get_operation(), Operation::Subtract));
+            let add = match add { Some(a) => a.clone(), None => { out.stat("mutant:share-pattern-not-found"); continue; } };
+            let alpha = add.get_node_dependencies()[0].clone();
+            let nop = gnodes.iter().find(|m| matches!(m.get_operation(), Operation::NOP) && m.get_node_dependencies()[0].get_id() == add.get_id() && sends_of(m).contains(&(q, (q + 2) % 3)));
+            let nop = match nop { Some(a) => a.clone(), None => { out.stat("mutant:share-pattern-not-found"); continue; } };
+            let t = alpha.get_type().unwrap();
+            // (A) the zero-sharing mask of the owner's share replaced by zeros: party q-1 receives x itself
+            let obs_a = (q + 2) % 3;
+            if !outs.contains(&IOStatus::Party(obs_a)) {
+                let mut ns = node_strs.clone();
+                ns[alpha.get_id() as usize] = format!("(mkNode (OZeros {}) [] [] [] {})", ty(&t), ty(&t));
+                let desc = json!({"mutant": "mask-replaced-by-zeros", "ops": ops_desc, "owners": owners.iter().map(status_str).collect::<Vec<_>>(), "outputs": outs.iter().map(status_str).collect::<Vec<_>>(), "input": j, "mutated_node": alpha.get_id(), "observer": obs_a});
+                out.case("T:maskcheck-mutant", format!("isSome (maskcheck {} {} [{}] {})", cfg, obs_a, ns.join("; "), oid), "false".into(), desc, true);
+            }
+            // (B) the owner's share sent to one extra party: party q+1 then holds all three shares
+            let obs_b = (q + 1) % 3;
+            if !outs.contains(&IOStatus::Party(obs_b)) {
+                let mut ns = node_strs.clone();
+                let mut an: Vec<String> = nop.get_annotations().unwrap_or_default().iter().map(annot_coq).collect();
+                an.push(format!("(ASend {} {})", q, obs_b));
+                let deps: Vec<u64> = nop.get_node_dependencies().iter().map(|d| d.get_id()).collect();
+                ns[nop.get_id() as usize] = format!("(mkNode ONOP {} [] [{}] {})", list_u64(&deps), an.join("; "), ty(&nop.get_type().unwrap()));
+                let desc = json!({"mutant": "share-sent-to-extra-party", "ops": ops_desc, "owners": owners.iter().map(status_str).collect::<Vec<_>>(), "outputs": outs.iter().map(status_str).collect::<Vec<_>>(), "input": j, "mutated_node": nop.get_id(), "observer": obs_b});
+                out.case("T:maskcheck-mutant", format!("isSome (maskcheck {} {} [{}] {})", cfg, obs_b, ns.join("; "), oid), "false".into(), desc, true);
+            }
+        }
+    }
+}
+
+pub fn run(tier: &str, seed: u64, out: &mut Out) {
+    maskcheck_cases(tier, seed, out);
     let cfgs: Vec<(usize, Vec<IOStatus>, Vec<IOStatus>)> = vec![
         (2, vec![IOStatus::Party(0), IOStatus::Party(1)], vec![IOStatus::Party(2)]),
         (2, vec![IOStatus::Party(0), IOStatus::Party(1)], vec![IOStatus::Party(0)]),
